@@ -139,7 +139,13 @@ func genC14(t *rapid.T) C14Case {
 		if c.P > 0 && rapid.IntRange(0, 3).Draw(t, "boundary") == 0 {
 			// x = M +- 1/D with M sitting exactly on a rounding boundary of the receiver's precision (a tie, or a
 			// representable value) and D a long denominator: numerator and denominator both far longer than the precision
-			m := model.MkFinite(false, h.GenRoundDigits(t, "bm", int(c.P)), int64(rapid.IntRange(-5, 40).Draw(t, "be")))
+			be := rapid.IntRange(-5, 40).Draw(t, "be")
+			if rapid.IntRange(0, 2).Draw(t, "bfar") == 0 {
+				// M far to the left of the point: the numerator then has hundreds of digits more than the denominator and
+				// the precision together (the +- 1/D sits that far below the rounding position)
+				be = int(c.P) + rapid.IntRange(50, 400).Draw(t, "be2")
+			}
+			m := model.MkFinite(false, h.GenRoundDigits(t, "bm", int(c.P)), int64(be))
 			if rapid.Bool().Draw(t, "bexact") {
 				m = model.MkFinite(false, h.GenDigitsN(t, "bm2", int(c.P)), m.Exp)
 			}
